@@ -61,6 +61,7 @@ Definition kstep (sites: list site) (x: kst) (o: op) : kst * option outcome :=
   match o with
   | Define ps tg tu rq ke => (KSt (k_classes x ++ [define (k_classes x) ps tg tu rq ke]) (k_compiled x), None)
   | DecodeSeq _ => (x, Some OBadSite)
+  | DecodeBad _ => (x, Some OBadSite)
   | Decode i _ present =>
       match nth_error sites i with
       | None => (x, Some OBadSite)
